@@ -1,6 +1,7 @@
 package govc
 
 import (
+	"sort"
 	"fmt"
 	"go/ast"
 	"go/parser"
@@ -518,6 +519,7 @@ func (e *Exec) callFunc(st *State, call *ast.CallExpr, fn *types.Func, recv Valu
 	}
 	if c.Lib {
 		e.calleesUsed[name+" (assumed)"] = true
+		e.copyFastPaths(st, call, name)
 	} else {
 		e.calleesUsed[name] = true
 	}
@@ -1541,4 +1543,73 @@ func (e *Exec) havocPointee(st *State, a Value) {
 		return
 	}
 	e.storeLoc(st, ll, e.symbolicValue(st, t, "out"))
+}
+
+// copyFastPaths: io.Copy / io.CopyBuffer hand the whole transfer to src.WriteTo or dst.ReadFrom when the
+// dynamic type has one (io.CopyN only to dst.ReadFrom); the assumed contracts of these functions describe
+// the plain Read/Write loop. A module type that declares such a method and can be the operand takes the
+// transfer outside every contract, so its existence fails an obligation at the call (library types are
+// covered by the assumed contract).
+func (e *Exec) copyFastPaths(st *State, call *ast.CallExpr, name string) {
+	if name != "io.Copy" && name != "io.CopyBuffer" && name != "io.CopyN" {
+		return
+	}
+	if len(call.Args) < 2 {
+		return
+	}
+	info := e.info()
+	check := func(arg ast.Expr, method, role string) {
+		at := info.TypeOf(arg)
+		if at == nil {
+			return
+		}
+		var offenders []string
+		hasMethod := func(t types.Type) bool {
+			ms := types.NewMethodSet(t)
+			for i := 0; i < ms.Len(); i++ {
+				if ms.At(i).Obj().Name() == method && ms.At(i).Obj().Pkg() != nil && inModule(ms.At(i).Obj().Pkg()) {
+					return true
+				}
+			}
+			return false
+		}
+		if iface, ok := at.Underlying().(*types.Interface); ok {
+			var paths []string
+			for path := range e.prog.pkgs {
+				paths = append(paths, path)
+			}
+			sort.Strings(paths)
+			for _, path := range paths {
+				pk := e.prog.pkgs[path]
+				if pk.Types == nil || !inModule(pk.Types) {
+					continue
+				}
+				sc := pk.Types.Scope()
+				for _, nm := range sc.Names() {
+					tn, ok := sc.Lookup(nm).(*types.TypeName)
+					if !ok || tn.IsAlias() {
+						continue
+					}
+					if _, isIface := tn.Type().Underlying().(*types.Interface); isIface {
+						continue
+					}
+					for _, t := range []types.Type{tn.Type(), types.NewPointer(tn.Type())} {
+						if types.Implements(t, iface) && hasMethod(t) {
+							offenders = append(offenders, typeKey(t))
+							break
+						}
+					}
+				}
+			}
+		} else if hasMethod(at) {
+			offenders = append(offenders, typeKey(at))
+		}
+		for _, o := range offenders {
+			e.oblige(st, "pre", name+":"+role+"-"+o+"-declares-"+method+"-which-takes-the-transfer-outside-the-contract", tFalse, call, nil)
+		}
+	}
+	check(call.Args[0], "ReadFrom", "destination")
+	if name != "io.CopyN" {
+		check(call.Args[1], "WriteTo", "source")
+	}
 }
